@@ -267,6 +267,7 @@ type World struct {
 	defs      []string // define-fun lines (spec functions), in order
 	defSeen   map[string]bool
 	nfresh    int
+	ModPath   string
 	seqSorts  []Sort
 	Facts     []string
 	Obls      []*Obligation
@@ -288,6 +289,7 @@ type Obligation struct {
 	Goal   string
 	Expect string // "unsat" (default, proof) or "sat" (cover: must NOT be unsat)
 	Note   string
+	Preset bool // decided by a static analysis of the engine, not by a solver
 	World  *World
 	// results
 	Result  string // unsat/sat/unknown/timeout
@@ -496,6 +498,10 @@ func (w *World) SortOf(t types.Type) Sort {
 			return w.SeqSort(SInt)
 		}
 		if st, ok := u.Underlying().(*types.Struct); ok {
+			if w.ModPath != "" && u.Obj().Pkg() != nil && !strings.HasPrefix(u.Obj().Pkg().Path(), w.ModPath) {
+				// library struct: opaque (no contract speaks about its fields)
+				return w.OpaqueSort("lib_" + u.Obj().Pkg().Name() + "_" + u.Obj().Name())
+			}
 			return w.structSort(u.Obj().Pkg().Name()+"_"+u.Obj().Name(), u, st)
 		}
 		if _, ok := u.Underlying().(*types.Interface); ok {
@@ -576,7 +582,11 @@ func (w *World) structSort(name string, t types.Type, st *types.Struct) Sort {
 	for i := 0; i < st.NumFields(); i++ {
 		f := st.Field(i)
 		fs := w.SortOf(f.Type())
-		d.Fields = append(d.Fields, DataField{Name: f.Name(), Sel: n + "__" + f.Name(), Sort: fs, GoT: f.Type()})
+		fname := f.Name()
+		if fname == "_" {
+			fname = fmt.Sprintf("blank%d", i)
+		}
+		d.Fields = append(d.Fields, DataField{Name: fname, Sel: n + "__" + fname, Sort: fs, GoT: f.Type()})
 	}
 	delete(w.inprog, key)
 	if len(d.Fields) == 0 {
